@@ -87,6 +87,73 @@ func c16NameConfigs() []c16Cfg {
 	return out
 }
 
+// c16MultiJoin: two JOIN clauses in one statement, every combination of INNER / LEFT: a row is dropped iff a table
+// it is INNER-joined with has no match; LEFT-joined tables without a match give NULL columns.
+func c16MultiJoin() fw.Result {
+	a := newAcc("C16", "join-multi")
+	for _, jt := range [][2]string{{"JOIN", "JOIN"}, {"LEFT JOIN", "JOIN"}, {"JOIN", "LEFT JOIN"}, {"LEFT JOIN", "LEFT JOIN"}, {"LEFT JOIN", "INNER JOIN"}, {"INNER JOIN", "LEFT OUTER JOIN"}} {
+		sql := fmt.Sprintf("SELECT id, m.loc AS loc, t.model AS model FROM stream %s meta m ON dev = m.dev %s models t ON site = t.site", jt[0], jt[1])
+		var got []Row
+		var execErr string
+		var rows []Row
+		for _, dev := range []any{1, 9} {
+			for _, site := range []any{"x", "q"} {
+				rows = append(rows, Row{"id": len(rows) + 1, "dev": dev, "site": site})
+			}
+		}
+		st, pv := inSched(func() {
+			s := streamsql.New(streamsql.WithLogger(logger.NewDiscardLogger()))
+			if err := s.Execute(sql); err != nil {
+				execErr = err.Error()
+				return
+			}
+			if _, err := s.RegisterTable("meta", []map[string]any{{"dev": 1, "loc": "L1"}}); err != nil {
+				execErr = err.Error()
+			}
+			if _, err := s.RegisterTable("models", []map[string]any{{"site": "x", "model": "Mx"}}); err != nil {
+				execErr = err.Error()
+			}
+			for _, r := range rows {
+				res, err := s.EmitSync(copyVal(r).(map[string]any))
+				if err != nil {
+					execErr = err.Error()
+				}
+				got = append(got, res)
+			}
+			s.Stop()
+		})
+		a.r.Evaluations += int64(len(rows))
+		a.r.States += int64(len(rows))
+		a.r.Transitions += int64(len(rows))
+		a.r.Nontrivial++
+		cs := map[string]any{"sql": sql, "rows": rows}
+		if st != sched.StatusOK || execErr != "" {
+			a.fail("C16|multi-join|exec", execErr+" "+st.String()+" "+firstLine(pv), cs, nil, nil)
+			continue
+		}
+		left1, left2 := strings.HasPrefix(jt[0], "LEFT"), strings.HasPrefix(jt[1], "LEFT")
+		for i, r := range rows {
+			m1, m2 := r["dev"] == 1, r["site"] == "x"
+			var want Row
+			if (m1 || left1) && (m2 || left2) {
+				want = Row{"id": r["id"], "loc": nil, "model": nil}
+				if m1 {
+					want["loc"] = "L1"
+				}
+				if m2 {
+					want["model"] = "Mx"
+				}
+			}
+			if ok, why := c05RowEq(got[i], want, nil); !ok {
+				a.fail("C16|multi-join|"+strings.Fields(why)[0], fmt.Sprintf("%s on %s gives %s, reference %s", sql, js(r), js(got[i]), js(want)), cs, want, got[i])
+				break
+			}
+		}
+	}
+	a.sample(map[string]any{"join_type_combinations": 6, "rows": 4})
+	return a.result()
+}
+
 // c16TypedKeys: numbers are compared numerically whatever their Go type: for every pair of the 12 Go numeric
 // types, a table key 1 of the first type is matched by a stream key 1 of the second and not by a 2.
 func c16TypedKeys() fw.Result {
@@ -439,6 +506,7 @@ func (c16) Plan(tier string) []fw.Unit {
 	us = append(us, fw.Unit{Check: "C16", Kind: "names", Tier: tier, Spec: fw.Spec(enumSpec{})})
 	us = append(us, fw.Unit{Check: "C16", Kind: "key-pairs", Tier: tier, Spec: fw.Spec(enumSpec{})})
 	us = append(us, fw.Unit{Check: "C16", Kind: "typed-keys", Tier: tier, Spec: fw.Spec(enumSpec{})})
+	us = append(us, fw.Unit{Check: "C16", Kind: "multi-join", Tier: tier, Spec: fw.Spec(enumSpec{})})
 	return us
 }
 
@@ -457,6 +525,9 @@ func (c16) Run(u fw.Unit) fw.Result {
 	}
 	if u.Kind == "typed-keys" {
 		return c16TypedKeys()
+	}
+	if u.Kind == "multi-join" {
+		return c16MultiJoin()
 	}
 	sp := parseEnum(u)
 	cfg := c16Configs()[sp.Cfg]
